@@ -23,7 +23,9 @@ import (
 	"strconv"
 	"strings"
 	"sync"
+	"time"
 
+	corev3 "github.com/envoyproxy/go-control-plane/envoy/config/core/v3"
 	listener "github.com/envoyproxy/go-control-plane/envoy/config/listener/v3"
 	tlsv3 "github.com/envoyproxy/go-control-plane/envoy/extensions/transport_sockets/tls/v3"
 	"istio.io/istio/pkg/wellknown"
@@ -33,7 +35,7 @@ import (
 	"istio.io/istio/pilot/pkg/features"
 	"istio.io/istio/pilot/pkg/model"
 	"istio.io/istio/pilot/pkg/networking/core"
-	xdsfilters "istio.io/istio/pilot/pkg/xds/filters"
+	authnplugin "istio.io/istio/pilot/pkg/networking/plugin/authn"
 	"istio.io/istio/pkg/config"
 	"istio.io/istio/pkg/config/host"
 	"istio.io/istio/pkg/config/mesh"
@@ -82,26 +84,31 @@ type svcPort struct {
 	proto  protocol.Instance
 }
 
-var inboundSvcPorts = []svcPort{{80, 80, protocol.HTTP}, {8080, 8080, protocol.TCP}, {9090, 9090, protocol.Unsupported}, {81, 8081, protocol.HTTP}}
+var inboundSvcPorts = []svcPort{
+	{80, 80, protocol.HTTP}, {8080, 8080, protocol.TCP}, {9090, 9090, protocol.Unsupported}, {81, 8081, protocol.HTTP},
+	// a second, younger service on target port 8080 with another protocol: the conflict branch of chainsByPort
+	{8082, 8080, protocol.HTTP},
+}
 
 // inboundDests are the destination ports the oracle looks at.
 var inboundDests = []uint32{80, 8080, 9090, 8081, 81, 9000, 7777}
 
 type ingressIn struct {
 	port    uint32
-	http    bool
+	proto   string // http | tcp | auto
 	userTLS bool
+	bind    bool // captureMode NONE: a listener of its own
 }
 
 func parseIngress(tok string) []ingressIn {
 	var out []ingressIn
 	for _, e := range wire.DecList(tok) {
 		p := strings.Split(e, ":")
-		if len(p) != 3 {
+		if len(p) != 4 {
 			continue
 		}
 		n, _ := strconv.ParseUint(p[0], 10, 32)
-		out = append(out, ingressIn{uint32(n), p[1] == "http", p[2] == "1"})
+		out = append(out, ingressIn{uint32(n), p[1], p[2] == "1", p[3] == "1"})
 	}
 	return out
 }
@@ -111,16 +118,21 @@ func sidecarConfig(ns string, ingress []ingressIn) config.Config {
 	for _, i := range ingress {
 		proto := "TCP"
 		switch {
-		case i.http && i.userTLS:
+		case i.proto == "http" && i.userTLS:
 			proto = "HTTPS"
-		case i.http:
+		case i.proto == "http":
 			proto = "HTTP"
-		case i.userTLS:
+		case i.proto == "tcp" && i.userTLS:
 			proto = "TLS"
+		case i.proto == "auto":
+			proto = "" // unset / unsupported protocol: sniffed
 		}
 		l := &networkingapi.IstioIngressListener{
 			Port:            &networkingapi.SidecarPort{Number: i.port, Protocol: proto, Name: fmt.Sprintf("p%d", i.port)},
 			DefaultEndpoint: fmt.Sprintf("127.0.0.1:%d", i.port),
+		}
+		if i.bind {
+			l.CaptureMode = networkingapi.CaptureMode_NONE
 		}
 		if i.userTLS {
 			l.Tls = &networkingapi.ServerTLSSettings{
@@ -135,7 +147,7 @@ func sidecarConfig(ns string, ingress []ingressIn) config.Config {
 	}
 }
 
-func (s *sut) inboundListener(ns string, labels [][2]string, ingress []ingressIn) string {
+func (s *sut) inboundListener(ns string, labels [][2]string, ingress []ingressIn, hbone, merge bool) string {
 	f := &failer{}
 	defer f.done()
 	var cfgs []config.Config
@@ -147,11 +159,13 @@ func (s *sut) inboundListener(ns string, labels [][2]string, ingress []ingressIn
 		features.EnableTLSOnSidecarIngress = true
 		cfgs = append(cfgs, sidecarConfig(ns, ingress))
 	}
+	features.EnableSidecarServiceInboundListenerMerge = merge
 	const ip = "10.1.1.1"
 	var services []*model.Service
 	var instances []*model.ServiceInstance
-	for _, sp := range inboundSvcPorts {
+	for k, sp := range inboundSvcPorts {
 		svc := &model.Service{
+			CreationTime:   time.Unix(int64(1000+k), 0),
 			Hostname:       host.Name(fmt.Sprintf("svc%d.%s.svc.cluster.local", sp.port, ns)),
 			DefaultAddress: "0.0.0.0",
 			Ports:          model.PortList{{Name: "default", Port: sp.port, Protocol: sp.proto}},
@@ -174,14 +188,28 @@ func (s *sut) inboundListener(ns string, labels [][2]string, ingress []ingressIn
 		Configs: cfgs, Services: services, Instances: instances, MeshConfig: mc,
 	})
 	lm := labelsMap(labels)
+	if hbone {
+		// a sidecar that also accepts HBONE (off by default)
+		features.EnableSidecarHBONEListening = true
+	}
 	proxy := cg.SetupProxy(&model.Proxy{
 		Type: model.SidecarProxy, ConfigNamespace: ns, IPAddresses: []string{ip}, Labels: lm,
-		Metadata: &model.NodeMetadata{Namespace: ns, Labels: lm},
+		Metadata: &model.NodeMetadata{Namespace: ns, Labels: lm, EnableHBONE: model.StringBool(hbone)},
 	})
-	var vi *listener.Listener
+	var vi, terminate, inner *listener.Listener
+	var custom []*listener.Listener
 	for _, l := range cg.Listeners(proxy) {
-		if l.Name == model.VirtualInboundListenerName {
+		if l.TrafficDirection == corev3.TrafficDirection_INBOUND && l.Name != model.VirtualInboundListenerName &&
+			l.Name != core.ConnectTerminate && l.Name != core.MainInternalName {
+			custom = append(custom, l)
+		}
+		switch l.Name {
+		case model.VirtualInboundListenerName:
 			vi = l
+		case core.ConnectTerminate:
+			terminate = l
+		case core.MainInternalName:
+			inner = l
 		}
 	}
 	if vi == nil {
@@ -190,42 +218,81 @@ func (s *sut) inboundListener(ns string, labels [][2]string, ingress []ingressIn
 	var out []string
 	for _, fc := range vi.FilterChains {
 		if fc.Name == model.VirtualInboundBlackholeFilterChainName {
+			// the chain that swallows traffic addressed to the listener's own port (no transport socket, no
+			// transport-protocol match): reported as such, not as an application chain
+			out = append(out, fmt.Sprintf("bh:%d.%s", fc.GetFilterChainMatch().GetDestinationPort().GetValue(), chainSock(fc)))
 			continue
 		}
-		m := fc.FilterChainMatch
-		dst := "*"
-		if m.GetDestinationPort() != nil {
-			dst = fmt.Sprint(m.GetDestinationPort().GetValue())
+		out = append(out, chainToken(fc))
+	}
+	// listeners that bind to their port (Sidecar ingress captureMode NONE)
+	for _, l := range custom {
+		port := l.GetAddress().GetSocketAddress().GetPortValue()
+		for _, fc := range l.FilterChains {
+			out = append(out, fmt.Sprintf("L%d/%s", port, chainToken(fc)))
 		}
-		tp := "?"
-		switch m.GetTransportProtocol() {
-		case xdsfilters.TLSTransportProtocol:
-			tp = "1"
-		case xdsfilters.RawBufferTransportProtocol:
-			tp = "0"
-		}
-		http := "0"
-		for _, fl := range fc.Filters {
-			if fl.Name == wellknown.HTTPConnectionManager {
-				http = "1"
-			}
-		}
-		sock := "0"
-		if ts := fc.TransportSocket; ts != nil {
-			ctx := &tlsv3.DownstreamTlsContext{}
-			if err := ts.GetTypedConfig().UnmarshalTo(ctx); err != nil {
-				sock = "?"
-			} else {
-				sock = sockClass(ctx)
-			}
-		}
-		out = append(out, fmt.Sprintf("%s:%s.%d.%s", dst, tp, alpnClass(m.GetApplicationProtocols()), http+"."+sock))
 	}
 	sort.Strings(out)
-	if len(out) == 0 {
-		return "-"
+	res := "-"
+	if len(out) > 0 {
+		res = strings.Join(out, ",")
 	}
-	return strings.Join(out, ",")
+	if !hbone {
+		return res
+	}
+	return res + " " + hboneView(cg, proxy, terminate, inner)
+}
+
+// hboneView: the connect_terminate listener's socket class, the real Builder.ForHBONE() (mode and socket
+// class of its TCP / HTTP contexts) and the chains of the internal listener behind the tunnel.
+func hboneView(cg *core.ConfigGenTest, proxy *model.Proxy, terminate, inner *listener.Listener) string {
+	h := "none"
+	if terminate != nil && len(terminate.FilterChains) == 1 {
+		h = chainSock(terminate.FilterChains[0])
+	} else if terminate != nil {
+		h = "chains!"
+	}
+	fh := authnplugin.NewBuilder(cg.PushContext(), proxy).ForHBONE()
+	f := fmt.Sprintf("%s.%s.%s", fh.Mode, sockClass(fh.TCP), sockClass(fh.HTTP))
+	var out []string
+	if inner != nil {
+		for _, fc := range inner.FilterChains {
+			m := fc.FilterChainMatch
+			dst := "*"
+			if m.GetDestinationPort() != nil {
+				dst = fmt.Sprint(m.GetDestinationPort().GetValue())
+			}
+			http := "0"
+			for _, fl := range fc.Filters {
+				if fl.Name == wellknown.HTTPConnectionManager {
+					http = "1"
+				}
+			}
+			e := fmt.Sprintf("%s:%d.%s.%s", dst, alpnClass(m.GetApplicationProtocols()), http, chainSock(fc))
+			if m.GetTransportProtocol() != "" {
+				e += "!tp"
+			}
+			out = append(out, e)
+		}
+	}
+	sort.Strings(out)
+	i := "-"
+	if len(out) > 0 {
+		i = strings.Join(out, ",")
+	}
+	return fmt.Sprintf("H=%s F=%s I=%s", h, f, i)
+}
+
+func chainSock(fc *listener.FilterChain) string {
+	ts := fc.TransportSocket
+	if ts == nil {
+		return "0"
+	}
+	ctx := &tlsv3.DownstreamTlsContext{}
+	if err := ts.GetTypedConfig().UnmarshalTo(ctx); err != nil {
+		return "?"
+	}
+	return sockClass(ctx)
 }
 
 var _ = meshconfig.MeshConfig{}
@@ -250,11 +317,28 @@ func sockClass(ctx *tlsv3.DownstreamTlsContext) string {
 // inboundOracle: the property's inbound clause on the real listener, per destination port.
 func (s *sut) inboundOracle(f []string, res string, fail func(clause, class, detail string)) {
 	ns, labels := wire.Dec(f[1]), parseLabels(f[2])
+	if f[0] == "ilh" {
+		// HBONE: the tunnel listener always demands mutual TLS, ForHBONE is STRICT, nothing behind the tunnel has a socket
+		if h := field(res, "H"); h != "2" {
+			fail("hbone-terminate-mtls", "connect-terminate-socket-class", "H="+h)
+		}
+		if fh := field(res, "F"); fh != "STRICT.2.2" {
+			fail("hbone-terminate-mtls", "ForHBONE-not-strict", "F="+fh)
+		}
+		for _, e := range strings.Split(field(res, "I"), ",") {
+			if e != "-" && !strings.HasSuffix(e, ".0") {
+				fail("hbone-terminate-mtls", "inner-chain-with-socket", e)
+			}
+		}
+		res = strings.Fields(res)[0]
+	}
 	userTLS := map[uint32]bool{}
 	targets := map[uint32]bool{}
 	if f[0] == "ils" {
 		for _, i := range parseIngress(f[3]) {
-			userTLS[i.port] = i.userTLS
+			if !targets[i.port] {
+				userTLS[i.port] = i.userTLS
+			}
 			targets[i.port] = true
 		}
 	} else {
@@ -264,8 +348,24 @@ func (s *sut) inboundOracle(f []string, res string, fail func(clause, class, det
 	}
 	type ch struct{ tp, sock string }
 	byDst := map[string][]ch{}
+	ownListener := map[string][]ch{}
 	if res != "-" {
 		for _, e := range strings.Split(res, ",") {
+			if strings.HasPrefix(e, "bh:") {
+				continue
+			}
+			if strings.HasPrefix(e, "L") {
+				// a listener of its own on that port: connections to the port arrive there, not at virtualInbound
+				lp, rest, _ := strings.Cut(e[1:], "/")
+				d2, r2, _ := strings.Cut(rest, ":")
+				p := strings.Split(r2, ".")
+				if d2 != lp || len(p) != 4 {
+					fail("inbound-enforces", "custom-listener-chain-shape", e)
+					return
+				}
+				ownListener[lp] = append(ownListener[lp], ch{p[0], p[3]})
+				continue
+			}
 			dst, rest, _ := strings.Cut(e, ":")
 			p := strings.Split(rest, ".")
 			if len(p) != 4 {
@@ -276,7 +376,10 @@ func (s *sut) inboundOracle(f []string, res string, fail func(clause, class, det
 		}
 	}
 	for _, d := range inboundDests {
-		cs := byDst[fmt.Sprint(d)]
+		cs := ownListener[fmt.Sprint(d)]
+		if len(cs) == 0 {
+			cs = byDst[fmt.Sprint(d)]
+		}
 		if len(cs) == 0 {
 			cs = byDst["*"]
 		}
